@@ -451,8 +451,8 @@ def run(ctx):
     ctx.extra["exhaustive"] = True
     ctx.extra["exhaustive_space"] = "unify over 9 kinds: 9 singles, 81 pairs, 729 triples"
     if ctx.quick:
-        ctx.parallel(program_shard, 16, 40, 8, 6)
-        ctx.parallel(adversarial_shard, 16, 100, 8)
+        ctx.parallel(program_shard, 16, 80, 8, 6)
+        ctx.parallel(adversarial_shard, 16, 250, 8)
     else:
         ctx.parallel(program_shard, 16, 3000, 24, 60)
         ctx.parallel(adversarial_shard, 16, 6000, 24)
